@@ -626,6 +626,9 @@ fn check_2822(cx: &mut Ctx, t: i128, off: i32) {
                 }
             }
             match back {
+                // an offset with seconds is printed rounded to the minute, which moves the instant by up to 30 s:
+                // within a minute of the limits of the supported range the printed text may denote an instant outside it
+                None if off % 60 != 0 && (t > MAX_NS - 60 * NS || t < MIN_NS + 60 * NS) => cx.count("rfc2822_sub_minute_offset_at_range_edge_no_verdict", 1),
                 None => cx.violation("rfc2822::parse/rejects-printed-text", case, || "Ok".into(), || s.clone()),
                 Some((bs, bo)) => {
                     if off % 60 == 0 && (bs != floor_s || bo != off) {
